@@ -121,9 +121,37 @@ def strip_comments(text):
     return ''.join(out)
 
 
+# theorem files that state "function regenerated from the source = hand-written model" and the properties resting on them
+SOURCE_TIES = {'C01': ['C01g'], 'C03': ['C01g', 'C12g'], 'C04': ['C12g'], 'C07': ['C01g', 'C12g'], 'C14': ['C01g'],
+               'C08': ['C08g'], 'C12': ['C12g']}
+
+
 def coq_props(pid):
-    """Re-check coq/props/<pid>.v with coqc and parse its Print Assumptions blocks.
-    Returns dict(ok, theorems, discharged, axioms, bad_axioms, log)."""
+    """Re-check coq/props/<pid>.v (and the source-tie theorem files of SOURCE_TIES) with coqc and parse the Print Assumptions
+    blocks.  Returns dict(ok, theorems, discharged, axioms, bad_axioms, log)."""
+    files = [pid] + [f for f in SOURCE_TIES.get(pid, []) if os.path.exists(os.path.join(COQ, 'props', f + '.v'))]
+    res = None
+    for f in files:
+        r = _coq_props_one(f)
+        if res is None:
+            res = r
+        else:
+            res['ok'] = res['ok'] and r['ok']
+            res['theorems'] += r['theorems']
+            res['examples'] += r['examples']
+            res['discharged'] = (res['discharged'] + r['discharged']) if res['ok'] else 0
+            res['axioms'] = sorted(set(res['axioms']) | set(r['axioms']))
+            res['bad_axioms'] = sorted(set(res['bad_axioms']) | set(r['bad_axioms']))
+            res['closed_blocks'] += r['closed_blocks']
+            res['print_assumptions'] += r['print_assumptions']
+            if not r['ok']:
+                res['log'] = 'props/%s.v: ' % f + r['log']
+            res['wall'] += r['wall']
+            res['cmd'] += ' && coqc -R . PV props/%s.v' % f
+    return res
+
+
+def _coq_props_one(pid):
     src = os.path.join(COQ, 'props', pid + '.v')
     text = strip_comments(open(src).read())
     theorems = re.findall(r'^\s*(?:Theorem|Lemma|Corollary)\s+(\w+)', text, re.M)
@@ -157,7 +185,8 @@ def coq_props(pid):
 def coqchk(pid):
     """Independent re-check of props/<pid>.vo and everything it depends on (thorough tier). Returns dict(ok, axioms, log)."""
     t0 = time.time()
-    p = subprocess.run(['timeout', '1500', 'coqchk', '-silent', '-o', '-R', '.', 'PV', 'PV.props.' + pid], cwd=COQ,
+    mods = ['PV.props.' + f for f in [pid] + [g for g in SOURCE_TIES.get(pid, []) if os.path.exists(os.path.join(COQ, 'props', g + '.vo'))]]
+    p = subprocess.run(['timeout', '1500', 'coqchk', '-silent', '-o', '-R', '.', 'PV'] + mods, cwd=COQ,
                        capture_output=True, text=True, preexec_fn=_limits)
     out = p.stdout + p.stderr
     axioms = []
@@ -171,10 +200,10 @@ def coqchk(pid):
             unsafe.append(key + ': ' + mm.group(1).strip()[:200])
     bad = [a for a in axioms if a.split('.')[-1] not in ALLOWED_AXIOMS and a not in ALLOWED_AXIOMS]
     return dict(ok=p.returncode == 0 and not unsafe and not bad, axioms=axioms, bad_axioms=bad, unsafe=unsafe, log=out[-1500:],
-                wall=round(time.time() - t0, 1), cmd='coqchk -silent -o -R . PV PV.props.%s' % pid)
+                wall=round(time.time() - t0, 1), cmd='coqchk -silent -o -R . PV ' + ' '.join(mods))
 
 
-def vm_crosscheck(pid, cases, shard=400, nproc=8):
+def vm_crosscheck(pid, cases, shard=25, nproc=8, limit=150):
     """cases: list of (func, args, expected) where expected came from the OCaml oracle.
     Writes coq/cases/<pid>_<n>.v files proving func args = expected by vm_compute,
     so extraction is cross-checked against evaluation inside Coq's kernel."""
@@ -203,7 +232,7 @@ def vm_crosscheck(pid, cases, shard=400, nproc=8):
     from concurrent.futures import ThreadPoolExecutor
 
     def one(f):
-        p = subprocess.run(['timeout', '600', 'coqc', '-R', '..', 'PV', '-w', '-all', f], cwd=d,
+        p = subprocess.run(['timeout', str(limit), 'coqc', '-R', '..', 'PV', '-w', '-all', f], cwd=d,
                            capture_output=True, text=True, preexec_fn=_limits)
         return f, p.returncode, (p.stdout + p.stderr)[-1500:]
     with ThreadPoolExecutor(nproc) as ex:
